@@ -101,6 +101,9 @@ pub fn dry_run(cfg: &Config, op: &FOp) -> Result<u64, String> {
 fn check_err(cfg: &Config, w: &W, r: Result<(), DutErr>, k_abs: u64, init: bool, what: &str) -> Result<(), String> {
     let wb = w.borrow();
     match r {
+        // the call ended before reaching the armed operation (it needs fewer operations than the case
+        // assumed, e.g. a saved case replayed on a driver that sends less): nothing failed, nothing to judge
+        Ok(()) if wb.ops <= k_abs => Ok(()),
         Ok(()) => Err(format!("{}: low-level operation #{} failed but the call returned Ok (error swallowed)", what, k_abs)),
         Err(DutErr::Panic(m)) => Err(format!("{}: panicked after a failed operation: {}", what, m)),
         Err(DutErr::Bus(BusErr { path, src, budget })) => {
@@ -168,6 +171,12 @@ pub fn check(c: &FaultCase, info: &mut CaseInfo) -> Result<(), String> {
     }
     let r = run_op(&mut *d, &c.op);
     let what = format!("{:?} with operation {} of the call failing", c.op, c.k);
+    if r.is_ok() && w.borrow().ops <= base + c.k {
+        // the armed operation was never reached (the call needs fewer operations than this case assumes)
+        info.nontrivial = false;
+        info.label("fault-not-reached");
+        return Ok(());
+    }
     check_err(cfg, &w, r, base + c.k, false, &what)?;
     if matches!(c.op, FOp::Sleep | FOp::Wake | FOp::SleepThenWake) {
         info.label("sleep/wake");
